@@ -154,7 +154,8 @@ def gen_dataset(rng, prof):
                     continue
                 nodes.append(c)
             if rng.chance(0.7):
-                dists = [rng.randint(50, 2000) for _ in range(k - 1)] + ([-1] if rng.chance(0.5) else [])
+                # (a 0 m segment is legal: two consecutive stops snapped to the same point)
+                dists = [0 if rng.chance(0.08) else rng.randint(50, 2000) for _ in range(k - 1)] + ([-1] if rng.chance(0.5) else [])
             elif rng.chance(0.5):
                 dists = []
             else:
